@@ -244,7 +244,7 @@ var c08Menu = []string{
 	"oj.ValidateReader", "oj.TokenizeLoad", "oj.MatchLoad", "sen.Tokenize", "sen.Match", "sen.MatchLoad", "pretty.WriteJSON", "oj.MustParse", "sen.MustParse", "alt.Alter", "alt.Dup", "jp.String", "alt.Recompose(embedded)", "oj.Unmarshal(embedded)",
 	// aborted calls: the error paths run concurrently with everybody else's calls
 	"oj.Marshal(unencodable)", "oj.Marshal(failing Marshaler)", "oj.JSON(panicking Simplifier)", "oj.Write(failing writer)", "sen.Write(failing writer)",
-	"sen.String(panicking Simplifier)", "oj.Load(reader error)", "oj.Parse(panicking callback)", "oj.Tokenize(panicking handler)", "sen.Parse(panicking callback)", "oj.Marshal(failing TextMarshaler)", "sen.ParseReader(reader error)", "oj.Parse(callback)", "sen.Parse(callback)", "oj.Parse(empty)", "oj.JSON(big)", "sen.String(big)", "oj.Marshal(big)", "oj.Unmarshal(invalid)", "sen.Unmarshal(invalid)", "oj.Parse(ints)", "alt.Generify(struct)", "alt.GenAlter(struct)", "alt.Alter(struct)", "sen.Unmarshal(keeper)", "oj.Unmarshal(keeper)", "oj.Write(pooled, failing writer)", "sen.Write(pooled, failing writer)",
+	"sen.String(panicking Simplifier)", "oj.Load(reader error)", "oj.Parse(panicking callback)", "oj.Tokenize(panicking handler)", "sen.Parse(panicking callback)", "oj.Marshal(failing TextMarshaler)", "sen.ParseReader(reader error)", "oj.Parse(callback)", "sen.Parse(callback)", "oj.Parse(empty)", "oj.JSON(big)", "sen.String(big)", "oj.Marshal(big)", "oj.Unmarshal(invalid)", "sen.Unmarshal(invalid)", "oj.Parse(ints)", "alt.Generify(struct)", "alt.GenAlter(struct)", "alt.Alter(struct)", "sen.Unmarshal(keeper)", "oj.Unmarshal(keeper)", "oj.Write(pooled, failing writer)", "sen.Write(pooled, failing writer)", "oj.Write(big, failing Marshaler)", "sen.Write(big, panicking Simplifier)", "oj.Write(big)", "sen.Write(big)",
 	// shared paths over the caller's own structs; recomposing from typed (not parsed) sources
 	"jp.Get(struct)", "jp.First(struct)", "jp.Has(struct)", "jp.Set(struct)", "jp.Walk(struct)", "jp.Locate(struct)", "jp.Modify(struct)",
 	"alt.Recompose(typed maps)", "alt.Recompose(gen)", "Recomposer.Recompose(typed maps)", "alt.Recompose(slices)",
@@ -929,6 +929,28 @@ func (o *op08) exec() (r ret08) {
 		err := oj.Write(sw, []any{strings.Repeat("y", 1100+o.A*20), o.B, "tail"})
 		r.canon = fmt.Sprint(err != nil, len(sw.Calls))
 		r.retained = []any{sw.Buf}
+	case "oj.Write(big, failing Marshaler)":
+		// the encoding fails after the text has outgrown the write limit: what the io.Writer holds when the call returns
+		// is all it will ever get from this call
+		sw := sim.NewSimWriter(-1)
+		err := oj.Write(sw, []any{strings.Repeat("y", 1100+o.A*20), o.B, failingMarshaler{o.A}, "tail"})
+		r.canon = fmt.Sprint(err != nil, len(sw.Calls))
+		r.retained = []any{sw}
+	case "sen.Write(big, panicking Simplifier)":
+		sw := sim.NewSimWriter(-1)
+		err := sen.Write(sw, []any{strings.Repeat("y", 1100+o.A*20), o.B, &boom{Armed: true, V: 1}, "tail"})
+		r.canon = fmt.Sprint(err != nil, len(sw.Calls))
+		r.retained = []any{sw}
+	case "oj.Write(big)":
+		sw := sim.NewSimWriter(-1)
+		err := oj.Write(sw, []any{strings.Repeat("y", 1100+o.A*20), o.B, strings.Repeat("z", 1030), "tail"})
+		r.canon = fmt.Sprint(err != nil, len(sw.Calls), string(sw.Buf))
+		r.retained = []any{sw}
+	case "sen.Write(big)":
+		sw := sim.NewSimWriter(-1)
+		err := sen.Write(sw, []any{strings.Repeat("y", 1100+o.A*20), o.B, strings.Repeat("z", 1030), "tail"})
+		r.canon = fmt.Sprint(err != nil, len(sw.Calls), string(sw.Buf))
+		r.retained = []any{sw}
 	case "sen.Write(pooled, failing writer)":
 		sw := sim.NewSimWriter(0)
 		err := sen.Write(sw, []any{strings.Repeat("y", 1100+o.A*20), o.B, "tail"})
